@@ -394,7 +394,7 @@ func writeItemN(ds string, kind string, via *proc, k int, tries int) {
 		case "insert":
 			_, err = cl.Insert(ctx, &pb.InsertRequest{DatasetId: u.Bytes(), Id: wid(k), Value: []float32{float32(k), 1, 0}, Metadata: map[string]string{"k": fmt.Sprint(k)}})
 		case "update":
-			_, err = cl.Update(ctx, &pb.UpdateRequest{DatasetId: u.Bytes(), Id: wid(k), Value: []float32{float32(k), 2, 0}})
+			_, err = cl.Update(ctx, &pb.UpdateRequest{DatasetId: u.Bytes(), Id: wid(k), Value: []float32{float32(k), 1.5, 0}}) // under either metric still between its neighbours, no ties
 		case "remove":
 			_, err = cl.Remove(ctx, &pb.RemoveRequest{DatasetId: u.Bytes(), Id: wid(k)})
 		}
